@@ -527,6 +527,36 @@ Section Update.
       apply good_of_K. eapply (reach_inv (Kinv nw)); [|exact KB|exact Hr].
       intros o g g' Ho Hg He. eapply cleanup_preserves_K; eassumption.
   Qed.
+  (** A complete, successful run installs the new notification; its snapshot is the server's
+      snapshot at the server's session and serial. *)
+  Theorem update_files_success :
+    up_to_date old r = false -> snd (run (update_rrdp_files f0 r archive) f0) = true ->
+    let f' := fst (run (update_rrdp_files f0 r archive) f0) in
+    fs_file notif_path f' = Some (CNotif nw) /\ NotifOkN f' nw
+    /\ n_session nw = r_session r /\ n_serial nw = r_serial r
+    /\ fs_file (snap_path r) f' = Some (CData (DSnap (r_session r) (r_serial r) (r_snapshot r))).
+  Proof.
+    intros Hup. unfold update_rrdp_files. rewrite Hup. unfold write_ops. fold (saves W).
+    set (main := saves W ++ [ORename newnotif_path notif_path true]).
+    intros Hok'. cbv zeta. rewrite run_app in *.
+    destruct (snd (run main f0)) eqn:Hmain; [|discriminate].
+    set (fA := fst (run (saves W) f0)).
+    assert (IfA : SaveInv W f0 fA).
+    { apply (run_inv (SaveInv W f0)); [|apply saveinv_init]. intros o g g' Ho Hg He. exact (saveinv_step _ f0 o g g' HP Ho Hg He). }
+    unfold main in Hmain. rewrite run_app in Hmain. fold fA in Hmain.
+    destruct (snd (run (saves W) f0)) eqn:Hsv; [|discriminate].
+    rewrite run_cons, run_nil, exec_rename in Hmain. cbn [best_effort] in Hmain.
+    destruct (rename newnotif_path notif_path fA) as [fB|] eqn:Er; [|discriminate].
+    assert (EB : fst (run main f0) = fB).
+    { unfold main. rewrite run_app. fold fA. rewrite Hsv. rewrite run_cons, run_nil, exec_rename, Er. reflexivity. }
+    rewrite EB in *.
+    assert (KB : Kinv nw fB).
+    { eapply switch_establishes_K; [exact IfA| |exact Er]. apply saves_done; [exact HP|exact Hsv]. }
+    assert (K' : Kinv nw (fst (run (cleanup_ops fB r archive) fB))).
+    { apply (run_inv (Kinv nw)); [|exact KB]. intros o g g' Ho Hg He. eapply cleanup_preserves_K; eassumption. }
+    destruct K' as [K1 K2]. split; [exact K1|]. split; [exact K2|]. split; [reflexivity|]. split; [reflexivity|].
+    apply K2. left. reflexivity.
+  Qed.
 End Update.
 
 (** [files_consistent_at_every_prefix]: for EVERY cut point [n] of the operations of an update. *)
@@ -539,4 +569,43 @@ Theorem files_consistent_at_every_prefix f0 r archive n :
       \/ fs_file notif_path f' = Some (CNotif (new_notif (read_notif f0) r))).
 Proof.
   intros Hok Hwf Hna Hfr Hc f'. apply (files_consistent_reach f0 r archive Hok Hwf Hna Hfr Hc). exists n. reflexivity.
+Qed.
+
+(** ** Witnesses *)
+Definition y_old : notif := mkNotif 3 4 ([NRrdp; NSess 3; NSer 4; NRand 1; NSnap], DSnap 3 4 []) [].
+(** What an update that was interrupted between writing new-notification.xml and the rename had
+    written there: a notification with two deltas. *)
+Definition y_stale : notif :=
+  mkNotif 3 5 ([NRrdp; NSess 3; NSer 5; NRand 1; NSnap], DSnap 3 5 [])
+    [(5, [NRrdp; NSess 3; NSer 5; NRand 2; NDelta], DDelta 3 5 []); (4, [NRrdp; NSess 3; NSer 4; NRand 3; NDelta], DDelta 3 4 [])].
+Definition y_fs0 : fs :=
+  [ ([NRrdp], Dir); ([NRrdp; NNotif], File (CNotif y_old)); ([NRrdp; NNewNotif], File (CNotif y_stale));
+    ([NRrdp; NSess 3], Dir); ([NRrdp; NSess 3; NSer 4], Dir); ([NRrdp; NSess 3; NSer 4; NRand 1], Dir);
+    ([NRrdp; NSess 3; NSer 4; NRand 1; NSnap], File (CData (DSnap 3 4 []))) ].
+(** The server after a session reset: session 8, serial 1, no deltas. *)
+Definition y_r : rrdp := rinit (mkJail 1 1 []) 8 0.
+
+(** F11g (fixed by 861388f0): with files opened without truncation, the new notification is
+    written over the stale, longer one; what is then renamed to notification.xml is not a
+    notification ([CMix]: the new bytes followed by a stale tail). With truncation it is the
+    new notification. *)
+Theorem stale_new_notification_corrupts :
+  NotifOk y_fs0
+  /\ fs_file notif_path (fst (run_m NonTruncating (update_rrdp_files y_fs0 y_r false) y_fs0)) = Some CMix
+  /\ fs_file notif_path (fst (run (update_rrdp_files y_fs0 y_r false) y_fs0)) = Some (CNotif (new_notif (read_notif y_fs0) y_r)).
+Proof.
+  split; [|split; vm_compute; reflexivity].
+  unfold NotifOk. change (read_notif y_fs0) with (Some y_old). intros p d [H|[]]. inv H. reflexivity.
+Qed.
+
+Example files_consistent_nonvacuous :
+  NotifOk y_fs0 /\ (forall m, read_notif y_fs0 = Some m -> NotifWf m) /\ NotAhead (read_notif y_fs0) y_r
+  /\ PlannedFresh (read_notif y_fs0) y_r /\ contig (r_serial y_r) (r_deltas y_r)
+  /\ length (update_rrdp_files y_fs0 y_r false) = 8%nat.
+Proof.
+  split; [apply stale_new_notification_corrupts|]. change (read_notif y_fs0) with (Some y_old).
+  split; [intros m H; inv H; split; [exists 1; reflexivity|intros x []]|].
+  split; [intros H; discriminate H|].
+  split; [|split; [exact I|vm_compute; reflexivity]].
+  intros p c d Hin [H|[]]. inv H. vm_compute in Hin. destruct Hin as [H|[H|[]]]; discriminate.
 Qed.
